@@ -710,6 +710,15 @@ E('sqrt', ['n'], key='sqrt_int', fam='B', tol=2)
 E('sqrt', ['k'], key='sqrt_negint', fam='B', tol=2)
 E('root', ['p', 'i:2:9'], key='root_real_pos', fam='B', tol=4)
 
+# --- natural failures deep inside routines that step the precision (robust triggers for seeded changes c11d, c11g) -------------
+def _zeta_rs_fail(r, c):
+    return r.choice([{'t': 'mpc', 'v': [[0, '0', 0], mpf_spec(r, 300, 340, sign=0, maxwidth=53)['v']]},            # |t| ~ 1e100: OverflowError in the error estimate
+                     {'t': 'mpc', 'v': [[0, '1', -1], mpf_spec(r, 900, 1000, sign=r.randint(0, 1), maxwidth=53)['v']]},
+                     {'t': 'mpc', 'v': [[0, '1', -1], mpf_spec(r, 19, 21, sign=0, maxwidth=53)['v']]}])
+E('zeta', [_zeta_rs_fail], key='zeta_rs_fail', fam='D', tol=10, cost=2, maxprec=120, kw={'derivative': (0.4, 'c:-1,0,2,4')})
+E('findroot', ['cb:multroot', lambda r, c: {'t': 'float', 'v': float(r.choice([0.3, 0.7, 1.3, 2.6, 3.4])).hex()}], key='findroot_anewton_mult', fam='I', tol=10, cost=2, c10=False,
+  maxprec=200, kw={'solver': '=anewton', 'verify': (0.5, '=0'), 'maxsteps': (0.3, 'i:5:40')})
+
 # --- result paths that round inside a raised-precision block (found by the round-9 sub-agent) ---------------------------------
 E('gammainc', ['m', 'P'], key='gammainc_int_reg', fam='E', tol=8, cost=2, maxprec=400, kw={'regularized': (0.8, '=1')})
 E('gammainc', ['m', 'P', 'g'], key='gammainc_int_ab', fam='E', tol=8, cost=2, maxprec=400, kw={'regularized': (0.5, '=1')})
